@@ -242,8 +242,12 @@ PROPS.update({
     "C03": gw("C03",
               "Lean theorems c03_sn_simple / c03_mq_simple / c03_subscribe / c03_unsubscribe / c03_filter_* / c03_suback about the model's dispatchers for ALL states "
               "and field values (one output per control packet, same message ID, resolved filter and requested QoS; SUBACK accepted iff broker code 0-2 with granted "
-              "QoS and the remembered topic ID); whole-session pairing checked by the monitor Spec.c03 on implementation traces; tie: gateway suite",
-              "theorems c03_* (one-step, all states); monitor Spec.c03 on implementation traces"),
+              "QoS and the remembered topic ID; c03_own_ping_reply_swallowed: the PINGRESP of a ping of the gateway itself is not passed on); ALL RUNS: "
+              "c03_subscribe_only_for_subscribe_datagram / c03_unsubscribe_only_for_unsubscribe_datagram / c03_pubrel_only_for_pubrel_datagram (in ANY reachable state an "
+              "event that is not a datagram of that type - other datagrams, broker packets, every timer and retransmission, EOF, shutdown, the session end - writes no such "
+              "packet to the broker) and c03_*_bounded (at most one per datagram over any run), via the generic frame FW w of Lemmas/GwWatch.lean; whole-session pairing "
+              "(which message ID, which filter) checked by the monitor Spec.c03 on implementation traces; tie: gateway suite",
+              "theorems c03_* (one-step, all states) + c03_*_only_for_*_datagram / c03_*_bounded (all runs); monitor Spec.c03 on implementation traces"),
     "C04": gw("C04",
               "Lean theorems about the topic-ID allocator of the model for ALL states: c04_allocs (any number of requests hands out strictly increasing, hence pairwise "
               "distinct, IDs inside the range), c04_not_predefined, c04_after_wrap + c04_exhausted_sticky (after a wrap everything is refused, for good), "
@@ -482,17 +486,23 @@ PROPS["C15"] = {
 
 PROPS.update({
     "C12": gw("C12",
-              "The property is FALSE of the unchanged code: four families of histories are recorded as known findings (broker-starved/client-traffic-answered-locally, "
-              "…/sleep-not-longer-than-keep-alive-has-no-pinger, …/first-sleep-ping-a-full-keep-alive-after-falling-asleep, …/sleep-cycle-continued-by-pingreq-has-no-pinger). Proved for ALL states of the gateway model "
-              "(partial): c12_partial_forwarded, c12_partial_pinger, c12_partial_pinger_ticks, c12_no_pinger_for_short_sleep. The monitor Spec.c12 evaluates the full "
-              "property on implementation traces of clients that meet their obligations (keepalive profile); a starvation outside the recorded families is a violation",
-              "partial theorems c12_*; monitor Spec.c12; 4 known findings",
+              "Lean theorems for ALL states of the gateway model: c12_forwarded (PINGREQ / PUBREL of an active client reach the broker at once), "
+              "c12_fresh_after_keepBrokerAlive / c12_client_datagram_refreshes (after EVERY client datagram that a connected session handles without an error the newest packet "
+              "to the broker is less than half a keep-alive old, whatever the gateway answered itself: otherwise a PINGREQ is written at that instant), "
+              "c12_pinger_for_every_sleep / c12_pinger_for_every_cycle (every DISCONNECT(d) and every wake-up starts one pinger: period one keep-alive, until one announced "
+              "duration later), c12_pinger_ticks. Their composition over a whole timed history (two broker packets less than 1.5 keep-alives apart as long as the client meets its "
+              "obligations) is argued in Props/C12.lean but is NOT a Lean theorem: the monitor Spec.c12 evaluates the full property on implementation traces of clients "
+              "that meet their obligations (keepalive profile); ANY starvation is a violation. The four families of histories that violated the property were repaired "
+              "(/repo b840d30) and are 'fixed:' entries now; their witnesses w-c12-* run first",
+              "theorems c12_* (one-step, all states); monitor Spec.c12 (the full property on implementation traces)",
               assumptions=["the client's obligations are evaluated from the trace (a datagram within every keep-alive while active; a wake-up within every announced sleep); once "
-                           "the client breaks them the monitor stops judging that trace"]),
+                           "the client breaks them the monitor stops judging that trace",
+                           "the timed composition of the one-step theorems is not proved"]),
     "C34": gw("C34",
-              "Gateway side under the stated broker assumption: Lean theorems c34_pinger_stops (+ c34_pinger_cancelled), c34_retries_stop, c34_broker_eof_ends, "
+              "Gateway side under the stated broker assumption: Lean theorems c34_pinger_stops (+ c34_pinger_cancelled), c34_pinger_replaced, c34_pinger_of_the_next_cycle (a wake-up "
+              "starts ONE pinger that ends one announced duration after that wake-up), c34_pinger_cancelled_on_reconnect, c34_retries_stop, c34_broker_eof_ends, "
               "c34_half_open_connect for ALL states of the gateway model; the monitor Spec.c34 checks on implementation traces of vanishing clients that the gateway sends "
-              "nothing to the broker of its own accord after the announced sleep plus the retry budget, and the session-end rules of C13 / C10 (incl. the goroutine census) "
+              "nothing to the broker of its own accord later than the announced sleep duration after the client's last datagram, plus the retry budget, and the session-end rules of C13 / C10 (incl. the goroutine census) "
               "are applied as 'session-not-reaped'. The broker's own keep-alive enforcement is the environment and is not executed",
               "theorems c34_*; monitors Spec.c34 + C13/C10 rules re-labelled",
               assumptions=["a keep-alive-enforcing broker is assumed, not run: the bound '1.5 x keep-alive after the last packet' is the broker's; the check establishes that the "
